@@ -232,6 +232,21 @@ OPTS = {"json": [{}, {"pretty": True}, {"pretty": False}], "yaml": [{}, {"root_k
         "xml": [{}, {"root_tag": "config"}, {"root_tag": "x"}, {"root_tag": "item"}], "bson": [{}], "pickle": [{}]}
 
 
+def scribble(t):
+    """edit a decoded tree in place, at every depth"""
+    if isinstance(t, dict):
+        for v in list(t.values()):
+            scribble(v)
+        for k in list(t)[::2]:
+            del t[k]
+        t["scribbled"] = [1]
+    elif isinstance(t, list):
+        for v in t:
+            scribble(v)
+        del t[::2]
+        t.append({"scribbled": True})
+
+
 def stream_doc(ctx, res, n):
     from cincoconfig.core import ConfigFormat
     for i in range(n):
@@ -254,6 +269,15 @@ def stream_doc(ctx, res, n):
                 if canon_sorted(back) != canon_sorted(t):
                     res.violate(None, "%s decodes to a different tree" % fmt, dict(case, decoded=back))
                 decoded[fmt] = back
+                # decoding is a function of the bytes: what a caller does to one decoded tree has no bearing on the next decode of the same bytes
+                scribble(back)
+                try:
+                    again = ConfigFormat.get(fmt, **opts).loads(None, b)
+                except Exception as exc:  # noqa
+                    again = "raised %s" % type(exc).__name__
+                if isinstance(again, str) or canon_sorted(again) != canon_sorted(t):
+                    res.violate("C04:decode-depends-on-history", "%s decodes the same bytes to a different tree the second time (after the first decoded tree was edited)" % fmt,
+                                dict(case, second_decode=again))
                 if fmt == "xml":
                     mine = opts.get("root_tag", "config")
                     # a reader expecting another root tag: an unrelated one, and every name that occurs inside the document
